@@ -836,7 +836,7 @@ int _vnadata_load_npd(vnadata_internal_t *vdip, FILE *fp, const char *filename)
 	_vnadata_error(vdip, VNAERR_SYSTEM,
 		"vnadata_init: %s", strerror(errno));
     }
-    if (z0_vector != NULL) {
+    if (z0_vector != NULL && ports > 0) {
 	if (vnadata_set_z0_vector(vdp, z0_vector) == -1) {
 	    _vnadata_error(vdip, VNAERR_SYSTEM,
 		    "vnadata_set_z0_vector: %s", strerror(errno));
@@ -909,7 +909,8 @@ int _vnadata_load_npd(vnadata_internal_t *vdip, FILE *fp, const char *filename)
 		}
 		z0_vector[port] = re + I * im;
 	    }
-	    if (vnadata_set_fz0_vector(vdp, findex, z0_vector) == -1) {
+	    if (ports > 0 &&
+		    vnadata_set_fz0_vector(vdp, findex, z0_vector) == -1) {
 		_vnadata_error(vdip, VNAERR_SYSTEM,
 			"vnadata_set_fz0_vector: %s", strerror(errno));
 		goto out;
